@@ -1,6 +1,7 @@
 package c09
 
 import (
+	"bufio"
 	"fmt"
 	"io"
 	"reflect"
@@ -193,6 +194,45 @@ func scenarioRead(op string) func(c *harness.Ctx) {
 			}
 		}
 
+		// ---- the source is a *bufio.Reader (what callers commonly pass): same
+		// value, count and logical position; and the value must still be intact
+		// after the reader has moved on (no aliasing of the reader's buffer)
+		if !rc.noTrunc {
+			for _, size := range []int{16, 16 + tp.Choose(100), 4096} {
+				long := append(append([]byte(nil), stream...), tp.Bytes(2*size+8)...)
+				fr := &simio.FragReader{Data: long, FailAt: -1, OneByte: tp.Bool(1, 3)}
+				if !fr.OneByte {
+					for pos := 0; pos < len(long); {
+						pos += 1 + tp.Choose(1+tp.Choose(2*size))
+						fr.Cuts = append(fr.Cuts, pos)
+					}
+				}
+				br := bufio.NewReaderSize(fr, size)
+				pBufio.Hit()
+				var o outcome
+				pan := func() (p any) {
+					defer func() { p = recover() }()
+					o.val, o.n, o.err = rc.dec(br)
+					return nil
+				}()
+				c.Evals++
+				if pan != nil {
+					c.Fail("panic", op, "bufio", "%s panicked reading from a bufio.Reader of size %d: %v", rc.desc, size, pan)
+					return
+				}
+				o.pos = fr.Pos - br.Buffered()
+				if o.err != nil || !reflect.DeepEqual(o.val, base.val) || o.n != base.n || o.pos != base.pos {
+					c.Fail("fragmentation", op, "bufio", "%s from a bufio.Reader (size %d, fragmented source): err=%v value-equal=%v n=%d (contiguous %d) position=%d (contiguous %d)", rc.desc, size, o.err, reflect.DeepEqual(o.val, base.val), o.n, base.n, o.pos, base.pos)
+					return
+				}
+				io.Copy(io.Discard, br)
+				if !reflect.DeepEqual(o.val, base.val) {
+					c.Fail("fragmentation", op, "bufio-late-corruption", "%s from a bufio.Reader (size %d): the returned value changed after the reader moved on (it aliases the reader's buffer)", rc.desc, size)
+					return
+				}
+			}
+		}
+
 		// ---- stream ends exactly after the document: must succeed
 		{
 			pEOFExact.Hit()
@@ -373,3 +413,5 @@ func init() {
 func TestWorker(t *testing.T) { harness.Main(t, prop) }
 
 var _ = tape.New
+
+var pBufio = simrt.NewProbe("reader.is.a.bufio.Reader")
